@@ -50,6 +50,16 @@ def _len(E, st, args, kw, n):
         return
     if v.ty.kind == "any":
         raise Unsupported("len() of an opaque value")
+    if v.ty.kind == "set":
+        c = ops.card(st.set_get(v))
+        st.assume(c >= 0)
+        yield st, V(INT, c)
+        return
+    if is_dictlike(v.ty):
+        c = ops.card(st.dict_get(v)[0])
+        st.assume(c >= 0)
+        yield st, V(INT, c)
+        return
     s = ops.as_seq(st, v)
     yield st, V(INT, z3.IntVal(0) if s.t is None else z3.Length(s.t))
 
@@ -274,6 +284,42 @@ def _tuple(E, st, args, kw, n):
     yield st, ops.as_seq(st, v)
 
 
+@static("builtins:dict.get", "builtins:dict.pop", "builtins:dict.setdefault")
+def _dict_raw_method(E, st, args, kw, n):
+    """dict.get(self, k) etc. on a dict subclass: the raw dict operation, bypassing overrides"""
+    yield from method(E, st, args[0], n.func.attr, list(args[1:]), kw, n)
+
+
+@static("builtins:dict.__getitem__")
+def _dict_raw_getitem(E, st, args, kw, n):
+    base, idx = args
+    kt, vt = dict_tys(base.ty)
+    dom, val = st.dict_get(base)
+    k = coerce(idx, kt)
+    for st2, present in E.branch(st, z3.Select(dom, k.t)):
+        if present:
+            yield st2, E.wf(st2, V(vt, z3.Select(val, k.t)))
+        else:
+            yield st2, Raised(Exc(KeyError, origin="dict.__getitem__ line %d" % n.lineno))
+
+
+@static("builtins:dict.__setitem__")
+def _dict_raw_setitem(E, st, args, kw, n):
+    base, idx, v = args
+    kt, vt = dict_tys(base.ty)
+    dom, val = st.dict_get(base)
+    k = coerce(idx, kt)
+    st.dict_set(base, ops.card_store_facts(st, dom, k.t, True), z3.Store(val, k.t, coerce(v, vt).t))
+    yield st, vnone()
+
+
+@static("builtins:dict.__contains__")
+def _dict_raw_contains(E, st, args, kw, n):
+    base, idx = args
+    kt, vt = dict_tys(base.ty)
+    yield st, vbool(z3.Select(st.dict_get(base)[0], coerce(idx, kt).t))
+
+
 @static("builtins:dict")
 def _dict(E, st, args, kw, n):
     hint = getattr(n, "_dict_hint", None) or (STR, ANY)
@@ -464,7 +510,7 @@ def method(E, st, recv: V, name, args, kw, n):
             for st2, present in E.branch(st, z3.Select(dom, key.t)):
                 if present:
                     d2, v2 = st2.dict_get(recv)
-                    st2.dict_set(recv, z3.Store(d2, key.t, False), v2)
+                    st2.dict_set(recv, ops.card_store_facts(st2, d2, key.t, False), v2)
                     yield st2, V(vt, z3.Select(v2, key.t))
                 elif len(args) > 1:
                     yield st2, args[1]
@@ -496,7 +542,7 @@ def method(E, st, recv: V, name, args, kw, n):
                     yield st2, V(vt, z3.Select(v2, key.t))
                 else:
                     nv = coerce(args[1], vt)
-                    st2.dict_set(recv, z3.Store(d2, key.t, True), z3.Store(v2, key.t, nv.t))
+                    st2.dict_set(recv, ops.card_store_facts(st2, d2, key.t, True), z3.Store(v2, key.t, nv.t))
                     yield st2, nv
             return
         if name == "keys":
